@@ -591,7 +591,7 @@ def check(run, fx, tier, floors=True):
         t16_pred(run, fx)
         t16_mat(run, fx)
         t16_offs(run, fx, floors)
-        pass  # T16-ARGXY is wired in once the finding it reports on the pinned tree has been triaged
+        t16_argxy(run, fx, floors)
         if floors or fx.body("<tables::glyf::CompositeGlyphArgument as binary::read::ReadBinaryDep>::read_dep") is not None:
             t16_args(run, fx)
     # the glyf outline visitor only exists with the `outline` feature: fail closed on the superset configuration, skip where it is compiled out
